@@ -386,10 +386,16 @@ func runC13(c *Ctx) {
 		// handleAddPeerMsg
 		fn := c.fn("(*neutrino.ChainService).handleAddPeerMsg")
 		ps := func(f string) *types.Var { return c.field("neutrino", "peerState", f) }
-		ins := find(fn, anyOf(mapUpdate(loadsField(ps("outboundPeers"))), mapUpdate(loadsField(ps("persistentPeers"))),
-			callTo(c.method("neutrino", "blockManager", "NewPeer"))))
+		peerMapUpd, peerMapsCovered := mapUpdateOneOf(ps("outboundPeers"), ps("persistentPeers"))
+		ins := find(fn, anyOf(peerMapUpd, callTo(c.method("neutrino", "blockManager", "NewPeer"))))
+		minIns := 3
+		for _, in := range ins {
+			if n := peerMapsCovered(in); n > 1 {
+				minIns -= n - 1 // one store into "the one map or the other"
+			}
+		}
 		g := boolIs("IsBanned(sp.Addr())", find(fn, callTo(isBanned)), 0, false)
-		c.guarded(fn, g, 1, "register peer (peer maps / blockManager.NewPeer)", ins, 3, gDominate)
+		c.guarded(fn, g, 1, "register peer (peer maps / blockManager.NewPeer)", ins, minIns, gDominate)
 		disc := c.method(pPeer, "Peer", "Disconnect")
 		c.mustFollow(fn, "peer is banned", c.failEdges(g), callTo(disc), "sp.Disconnect()", nil, 1)
 		// the address checked is the peer's own
@@ -485,15 +491,52 @@ func runC13(c *Ctx) {
 		disc := c.method(pPeer, "Peer", "Disconnect")
 		for _, fl := range []string{"SFNodeWitness", "SFNodeCF"} {
 			k := flag(fl)
-			cmps := find(fn, binops(eqOps, func(v ssa.Value) bool {
-				b, ok := v.(*ssa.BinOp)
-				if !ok {
+			// services&m == m for a constant m that includes the flag (the
+			// flag alone, or the needed flags or-ed together): every peer
+			// lacking the flag takes the "not equal" edge
+			includes := func(v ssa.Value) (int64, bool) {
+				m, isC := ir.ConstInt(v)
+				return m, isC && m&k == k
+			}
+			cmps := find(fn, func(in ssa.Instruction) bool {
+				b, ok := in.(*ssa.BinOp)
+				if !ok || (b.Op != token.EQL && b.Op != token.NEQ) {
 					return false
 				}
-				kk, isC := ir.ConstInt(b.Y)
-				return isC && kk == k
-			}, constIntIs(k)))
+				for _, pr := range [][2]ssa.Value{{b.X, b.Y}, {b.Y, b.X}} {
+					and, ok := pr[0].(*ssa.BinOp)
+					if !ok || and.Op != token.AND {
+						continue
+					}
+					m, okM := includes(pr[1])
+					if !okM {
+						continue
+					}
+					if m1, ok1 := includes(and.Y); ok1 && m1 == m {
+						return true
+					}
+					if m1, ok1 := includes(and.X); ok1 && m1 == m {
+						return true
+					}
+				}
+				return false
+			})
 			g := equalIs("services&"+fl+" vs "+fl, cmps, true)
+			// ... or ServiceFlag.HasFlag(m), which is that comparison
+			hasFlag := c.P.Method(pWire, "ServiceFlag", "HasFlag")
+			if hasFlag != nil {
+				var calls []ssa.Instruction
+				for _, in := range find(fn, callTo(hasFlag)) {
+					a := ir.CallOf(in).Args
+					if _, ok := includes(a[len(a)-1]); ok {
+						calls = append(calls, in)
+					}
+				}
+				hg := boolIs("services.HasFlag(.."+fl+"..)", calls, 0, true)
+				g.sites = append(g.sites, hg.sites...)
+				g.weak = append(g.weak, hg.weak...)
+				g.found += hg.found
+			}
 			c.mustFollow(fn, "peer lacks "+fl, c.failEdges(g), ban, "BanPeer(addr, NoCompactFilters)", nil, 1)
 			c.mustFollow(fn, "peer lacks "+fl, c.failEdges(g), callTo(disc), "sp.Disconnect()", nil, 1)
 		}
